@@ -13,7 +13,9 @@ RULE = ("histories of predictions (dt in (0, max_dt]) and sensor updates from a 
         "(identity, diagonal with zeros, rank-one v v^T, random SPD) on: the project's own mass/z/v/a model "
         "(singular process Jacobian), duplicated/constant-state models, contractive random programs; filtering "
         "on and off.  Every matrix handed to assert_valid_covariance and every covariance returned by "
-        "process_model / sensor_model is classified relative to s = ||P||_2: valid (asym <= 1e-13 s and "
+        "process_model / sensor_model is classified relative to s = ||P||_2 (a returned matrix: the largest "
+        "covariance norm met so far in the history, since rounding is relative to the operands); initial "
+        "covariances also as int64 / float32 arrays; tiny-magnitude family; generated C++ histories: valid (asym <= 1e-13 s and "
         "lambda_min >= -1e-13 s), invalid (> 1e-8 s), grey otherwise.  Violation: the library refuses a valid "
         "matrix, or returns an invalid one.  non-trivial = history of >= 20 steps containing both predictions "
         "and updates; distinct = sha256(definition, initial covariance kind, history seed)")
